@@ -130,6 +130,7 @@ pub fn run(ctx: &Ctx) -> Report {
         p4(ctx.pick(12, 60), false),
         p5_full(),
         p_guard_args(),
+        p_guard_then_op(),
         p_vectors(ctx.pick(2, 8)),
         p_paths(40),
     ];
